@@ -124,6 +124,69 @@ func runC12(env *Env) {
 			}
 		}
 	}
+	// two tokens in one sub-process at the same time (a fork leads into it twice): the activations run one after
+	// the other, each runs the content, each hands its token back, and the instance completes only after both
+	for rnd := 0; rnd < 4 && !rep.Saturated(); rnd++ {
+		cs := fmt.Sprintf("fork -> {S, G -> S}, S = start -> A -> end; second token enters while the first activation runs (round %d)", rnd)
+		env.Current(cs)
+		p := &Prog{}
+		p.Node("start", "start")
+		p.Node("par", "F")
+		p.Node("task", "G")
+		sn := p.Node("sub", "S")
+		sn.Sub = &Prog{nflow: 700}
+		sn.Sub.Node("start", "ss")
+		sn.Sub.Node("task", "A")
+		sn.Sub.Node("end", "se")
+		sn.Sub.Flow("ss", "A", "")
+		sn.Sub.Flow("A", "se", "")
+		p.Node("task", "Z")
+		p.Node("end", "end")
+		p.Flow("start", "F", "")
+		p.Flow("F", "S", "")
+		p.Flow("F", "G", "")
+		p.Flow("G", "S", "")
+		p.Flow("S", "Z", "")
+		p.Flow("Z", "end", "")
+		defs, err := ParseDefs(p.XML(""))
+		must(err)
+		var opts []bpmn.Option
+		if rnd%2 == 1 {
+			opts = append(opts, bpmn.WithIdGenerator(slowGen{time.Millisecond}))
+		}
+		in, err := StartInst(defs, InstOpt{Opts: opts})
+		must(err)
+		rep.Evaluations++
+		rep.Nontrivial++
+		rep.Count("two_tokens_one_subprocess")
+		fail := func(msg string) {
+			rep.Violate("C12-inline", cs, msg+"; log: "+logString(in.Log()))
+		}
+		step := func(task string, wantA, wantZ int) bool {
+			if !in.Answer(task, tmoStep) {
+				fail("task " + task + " was not requested")
+				return false
+			}
+			ok := in.WaitUntil(tmoStep, func(l []Ev) bool { return countEv(l, "task", "A") >= wantA && countEv(l, "task", "Z") >= wantZ })
+			time.Sleep(8 * time.Millisecond)
+			l := in.Log()
+			if !ok || countEv(l, "task", "A") != wantA || countEv(l, "task", "Z") != wantZ || countEv(l, "cease", "*") != 0 {
+				fail(fmt.Sprintf("after answering %s: A requested %d times (expected %d), Z %d times (expected %d), cease-flow traces %d (expected 0)",
+					task, countEv(l, "task", "A"), wantA, countEv(l, "task", "Z"), wantZ, countEv(l, "cease", "*")))
+				return false
+			}
+			return true
+		}
+		in.WaitUntil(tmoStep, func(l []Ev) bool { return countEv(l, "task", "A") >= 1 && countEv(l, "task", "G") >= 1 })
+		// G first: the second token reaches S while the first activation still waits for A
+		if step("G", 1, 0) && step("A", 2, 1) && step("A", 2, 2) && step("Z", 2, 2) {
+			in.Answer("Z", tmoStep)
+			if !in.WaitCease(tmoStep) {
+				fail("every task answered, the instance did not complete")
+			}
+		}
+		in.Close()
+	}
 	env.WriteCases(rep, "", "Corr.C12corr", "blk * list bool * list nat * list ostep * list bool * list (list nat)", items, "c12_mismatches")
 	env.WriteReport(rep)
 }
